@@ -315,12 +315,13 @@ theorem csvNorm_ne_invalid {bt : Nat} {isBool : Bool} {v : Value} (h : valueOK b
 
 /-- **a developer field survives the round trip through its cell**: written under the name (and units) of the most
 recent description of its (developer data index, field number), read back through the most recent description
-carrying that name — the same one when names are unique —, with the description's base type, no scale/offset -/
+carrying that name — the same one when names are unique —, with the description's base type; the description's scale
+and offset play no part (the writer does not apply them, the reader — since the fix of KF-C19-6 — does not discard them) -/
 theorem dev_field_rt (ar : Arith) (o : Opts) (ds : List Desc) (mesgNum : Nat) (dv : DevField) (d : Desc)
     (hfind : findDesc ds dv.devIdx dv.num = some d)
     (hname : ds.reverse.find? (fun x => x.name == d.name) = some d)
     (hnative : lookupFieldNum mesgNum d.name = none) (hne : d.name.isEmpty = false)
-    (hunk : isPrefixOf' unknownTxt d.name = false) (hsc : d.scale = 255) (hof : d.offset = 127)
+    (hunk : isPrefixOf' unknownTxt d.name = false)
     (hv : valueOK d.bt false dv.value = true) (hdeg : ¬(d.units = degreesTxt ∧ d.bt = btSint32))
     (hshape : (elemsOf dv.value).2 = true → (elemsOf dv.value).1.length ≠ 1) :
     readCell ar ds mesgNum (writeDev o ds dv) = .ok (.dev ⟨dv.devIdx, dv.num, csvNorm dv.value⟩) := by
@@ -329,11 +330,9 @@ theorem dev_field_rt (ar : Arith) (o : Opts) (ds : List Desc) (mesgNum : Nat) (d
   have hkey : d.devIdx = dv.devIdx ∧ d.num = dv.num := by
     have := List.find?_some hfind
     simpa using this
-  have hs : descScale d = f64One := by simp [descScale, hsc]
-  have ho : descOffset d = 0 := by simp [descOffset, hof]
   have hninv := csvNorm_ne_invalid hv
   have hf : (d.bt = btFloat32 ∨ d.bt = btFloat64) → isScaledField f64One 0 = false := fun _ => by decide
-  simp only [readCell, hne, Bool.false_eq_true, ↓reduceIte, hnative, hunk, hname, hs, ho]
+  simp only [readCell, hne, Bool.false_eq_true, ↓reduceIte, hnative, hunk, hname]
   cases hsl : (elemsOf dv.value).2
   · -- scalar: one piece
     have hflag : (elemsOf dv.value).2 = false ∧ false = false ∨
